@@ -9,6 +9,7 @@ import Switcher.Model.Api
 import Switcher.Model.Bridge
 import Switcher.Model.Life
 import Switcher.Model.LifeC
+import Switcher.Model.Manager
 open Spec Wire Model
 
 def showPyText : Py (List Char) → String
@@ -45,6 +46,51 @@ def parseIrSet (tok : String) : Option IrSet := do
       | _ => none)
     pure { id, onOffType := on, waves := ws }
   | _ => none
+
+/-- one action of a remote-manager history (`mgr …` line): `new@p`, `rm@p`, `wr@p@<u:key>@<ir>@…`, `get@m@<u:id>@st@md@tt@fan@sw@cur` -/
+def parseMgrAct (tok : String) : Option (MgrAct × Option (String × String × Int × String × String × Option String)) :=
+  match tok.splitOn "@" with
+  | ["new", p] => do pure (.create (← p.toNat?), none)
+  | ["rm", p] => do pure (.remove (← p.toNat?), none)
+  | "wr" :: p :: rest =>
+    let rec pairs : List String → Option IrDb
+      | [] => some []
+      | k :: ir :: more => do
+        let k ← text? k
+        let irs ← parseIrSet ir
+        let tl ← pairs more
+        pure ((k, irs) :: tl)
+      | _ => none
+    do pure (.write (← p.toNat?) (← pairs rest), none)
+  | ["get", m, id, st, md, tt, fan, sw, cur] => do
+    pure (.get (← m.toNat?) (← text? id), some (st, md, ← int? tt, fan, sw, optTok cur))
+  | _ => none
+
+def showMgrOut (o : MgrOut) (req : Option (String × String × Int × String × String × Option String)) : String :=
+  match o with
+  | .done => "done"
+  | .noSuchManager => "no-manager"
+  | .raised e => "raise " ++ e.name
+  | .remote obj r =>
+    let caps := s!"obj{obj} modes={",".intercalate r.supportedModes} min={r.minTemp} max={r.maxTemp} toggle={if r.onOffType then 1 else 0} sepswing={if r.separatedSwing then 1 else 0} id={encText r.remoteId}"
+    match req with
+    | none => caps
+    | some (st, md, tt, fan, sw, cur) =>
+      caps ++ " | " ++ (match buildCommand r st md tt fan sw cur with
+        | .ok c => s!"ok {String.ofList c.command} {String.ofList c.length}"
+        | .error e => "raise " ++ e.name)
+
+def runMgrLine (toks : List String) : String :=
+  match toks.mapM parseMgrAct with
+  | none => "bad-arg"
+  | some acts =>
+    let rec go (w : MgrWorld) : List (MgrAct × Option (String × String × Int × String × String × Option String)) → List String
+      | [] => []
+      | (a, req) :: rest =>
+        let (w', o) := mgrStep w a
+        showMgrOut o req :: go w' rest
+    " ; ".intercalate (go mgrInit acts)
+
 
 def parseReq : List String → Option Req
   | ["getState"] => some .getState
@@ -102,10 +148,12 @@ def showRecs (recs : List SchedRec) : String :=
       s!"{r.id},{if r.recurring then 1 else 0},{showDays (r.days.mergeSort (· ≤ ·))},{String.ofList r.start},{String.ofList r.stop},{String.ofList r.duration},{encText r.display}"))
 
 /-- the code-level bridge (Model.LifeC: dictionary, bind loop, rollback); `Props.C17.code_refines` relates it to the abstract machine -/
-def goBridge (ports : List Nat) (s : BridgeC) : List BridgeAct → List String
+def goBridge (ports : List Nat) (s : BridgeC) : List (BridgeAct ⊕ Nat) → List String
   | [] => []
   | a :: rest =>
-    let (s', o) := bridgeStepC s a
+    let (s', o) := match a with
+      | .inl a => bridgeStepC s a
+      | .inr p => startFailingAt s p          -- `cstart:p`: a start cancelled (or failing for any reason) at the bind of port p
     (o.text.replace " " "_" ++ ":" ++ (if s'.running then "1" else "0") ++ ":" ++
       String.ofList (ports.map (fun p => if s'.openPorts.contains p then '1' else '0'))) :: goBridge ports s' rest
 
@@ -209,10 +257,11 @@ def drive : List String → String
       | .error e => "ctor-raise " ++ e.name
       | .ok r => s!"caps modes={",".intercalate r.supportedModes} min={r.minTemp} max={r.maxTemp} toggle={if r.onOffType then 1 else 0} sepswing={if r.separatedSwing then 1 else 0} id={encText r.remoteId}"
     | none => "bad-arg"
+  | "mgr" :: acts => runMgrLine acts
   | "blife" :: n :: acts =>          -- bridge life cycle on ports 0..n-1
     match nat? n with
     | some n =>
-      let parse (a : String) : Option BridgeAct :=
+      let parse0 (a : String) : Option BridgeAct :=
         if a == "start" || a == "enter" then some .start else if a == "stop" || a == "leave" then some .stop
         else if a == "ostop" || a == "ostart" then some .foreign      -- another bridge object acts: nothing changes for this one
         else if a == "newloop" then some .foreign                      -- the (stopped) bridge is carried over to another event loop
@@ -225,6 +274,10 @@ def drive : List String → String
           | ["zero", _] => some .foreign             -- "configured port i is 0, the system chooses": says how the harness sets the case up
           | ["as", _] => some .foreign               -- "the ports come in a tuple / set / …": likewise
           | _ => none
+      let parse (a : String) : Option (BridgeAct ⊕ Nat) :=
+        match a.splitOn ":" with
+        | ["cstart", i] => i.toNat?.map .inr
+        | _ => (parse0 a).map .inl
       match acts.mapM parse with
       | some as =>
         " ".intercalate (goBridge (List.range n) (bridgeInitC (List.range n)) as)
